@@ -25,7 +25,8 @@ RULE = ('case = configuration (DPD interval 5/12/30 s, IKE lifetime 40/90/3600 s
         'records; an answered request is never sent again; a DPD probe or rekey never starts before its interval / lifetime '
         'has elapsed and an idle established IKE_SA does not stay idle once it has; no rekey is started after lifetime + '
         'jitter + 30 s (deletion instead); after a crash the survivor\'s SAD is empty within the horizon. Non-trivial = a '
-        'transmission was lost or delayed past a deadline, or a crash / partition was injected.')
+        'transmission was lost or delayed past a deadline, or a crash / partition was injected. '
+        'Transmissions of a request are counted on the wire (byte-identical copies) and bounded by MAX_RETRANSMISSIONS including the first one, as the repository\'s own test_max_retransmit expects. Hard expiries also come in the faithful Linux form: the kernel has already deleted the SA, the daemon\'s DELSA for it is answered ESRCH.')
 ASSUMPTIONS = [
     'time is the virtual clock installed as ikesa.time; the sweep runs once per tick like the daemon\'s 1 s select timeout and '
     'catches up after coarse ticks',
